@@ -324,11 +324,14 @@ def run_wide(case):
 
 # ---------------------------------------------------------------- split
 def gen_split(tier, seed):
-    cfgs = [cfg(), cfg(**CFG_256), cfg(rs="zero"), cfg(rs="ones", id="ones"), cfg(bits=256, rs="ctr", sv="ones", id="0"), cfg(sv="zero", pp="bin", e=1)]
+    cfgs = [cfg(), cfg(**CFG_256), cfg(rs="zero"), cfg(rs="ones", id="ones"), cfg(bits=256, rs="ctr", sv="ones", id="0"), cfg(sv="zero", pp="bin", e=2)]
     if tier == "thorough":
         cfgs += [cfg(**d) for d in CFG_DEVS[1:]] + [cfg(bits=256, sv=sv, rs=rs) for sv in ("zero", "hi", "f2") for rs in ("zero", "ones", "fill")]
-    out = []
+    out, seen = [], set()
     for c in cfgs:
+        if repr(sorted(c.items())) in seen:
+            continue
+        seen.add(repr(sorted(c.items())))
         for k, n in KN:
             out.append({"cfg": c, "k": k, "n": n, "seed": seed})
     return out
